@@ -1053,6 +1053,10 @@ Proof.
     intros n0. upd_case n0 n; simpl; snode_obl.
   - (* install *)
     eapply sinv_install; eassumption.
+  - (* truncated request: msgc_ok only reads the term and the announced commit index *)
+    apply (sinv_frame s); try exact Hs; unfold do_trunc; simpl; try reflexivity; auto.
+    + intros m0 [<-|Hin]; [right; exact (s_msgc _ Hs _ H) | left; exact Hin].
+    + intros n0. snode_obl.
 Qed.
 
 Lemma reachable_all s : Reachable V s -> vinv V s /\ linv s /\ sinv s.
